@@ -18,6 +18,7 @@ func init() {
 			{ID: "C08-R5", Doc: "the frozen environment is the one that travels (shared)", Run: c08r5},
 			{ID: "C13-R5", Doc: "write-through and read-back errors surface", Run: c13r5},
 			{ID: "C16-R9", Doc: "the frozen compile environment arrives frozen, so workers do not re-decide cache hits (shared)", Run: c16r9},
+			{ID: "C16-R10", Doc: "the recorded cache hits travel whole: the key type of CompileEnv.Cached has only exported fields (shared)", Run: c16r10},
 		},
 	})
 }
